@@ -103,6 +103,8 @@ impl Step {
 #[derive(Clone, Copy, Debug, PartialEq, Eq, Hash, PartialOrd, Ord)]
 pub enum ConnStep {
     Ok,
+    /// the connection is established after `ms`
+    OkAfter(u64),
     /// connection refused after `ms`
     Refused(u64),
     /// no SYN-ACK: `Timeout` after `ms` (the connect timeout)
@@ -113,6 +115,7 @@ impl ConnStep {
     pub fn to_s(self) -> String {
         match self {
             ConnStep::Ok => "ok".into(),
+            ConnStep::OkAfter(l) => format!("okafter:{l}"),
             ConnStep::Refused(l) => format!("refused:{l}"),
             ConnStep::Timeout(l) => format!("timeout:{l}"),
         }
@@ -124,6 +127,7 @@ impl ConnStep {
         };
         match k {
             "ok" => ConnStep::Ok,
+            "okafter" => ConnStep::OkAfter(l),
             "refused" => ConnStep::Refused(l),
             "timeout" => ConnStep::Timeout(l),
             other => vcore::machinery_exit(&format!("bad conn step {other}")),
@@ -156,6 +160,8 @@ pub struct Srv {
     pub trust_nx: bool,
     /// pinned initial SRTT in microseconds
     pub srtt: u32,
+    /// the server is configured with TCP only (`udp` is then never used)
+    pub no_udp: bool,
 }
 
 impl Srv {
@@ -167,6 +173,7 @@ impl Srv {
             "tcp_conn": {"steps": self.tcp_conn.steps.iter().map(|x| x.to_s()).collect::<Vec<_>>(), "rest": self.tcp_conn.rest.to_s()},
             "trust_nx": self.trust_nx,
             "srtt": self.srtt,
+            "no_udp": self.no_udp,
         })
     }
     pub fn from_json(v: &Value) -> Srv {
@@ -186,6 +193,7 @@ impl Srv {
             },
             trust_nx: v["trust_nx"].as_bool().unwrap_or(true),
             srtt: v["srtt"].as_u64().unwrap_or(10) as u32,
+            no_udp: v["no_udp"].as_bool().unwrap_or(false),
         }
     }
 }
@@ -634,6 +642,7 @@ impl ConnectionProvider for Net {
                     tokio::spawn(background);
                     Ok(Conn { net: net.clone(), srv, tcp, id, exchange: Some(exchange) })
                 }
+                ConnStep::OkAfter(_) => unreachable!("only the stock-provider family connects with a delay"),
                 ConnStep::Refused(l) => {
                     tokio::time::sleep(Duration::from_millis(l)).await;
                     Err(io_err(std::io::ErrorKind::ConnectionRefused, "tcp connect refused"))
